@@ -346,12 +346,17 @@ func c08Run(c *fw.Ctx, i int) {
 			c.Violation("isdeepequal-true-for-different-trees:IsDeepEqual", "inputs differ by uniquely tagged leaves but IsDeepEqual() is true", payload)
 		}
 	}
-	if kind == "permuted-copy" && gedcom.DeepEqual(L, R) && gedcom.DeepEqual(R, L) {
+	if kind == "permuted-copy" {
+		// A tree and its re-ordered copy ARE deep-equal inputs (the property's
+		// own example); the library's DeepEqual is not asked, because a change
+		// that makes a node unequal to its own copy would silence the demand.
+		// Only the listed C07 findings are kept out: node equality that is not
+		// symmetric or not transitive on the nodes present.
 		all := append(c07All(L), c07All(R)...)
 		if c07AsymKinds(all, all) == "" && c07NonTransitiveKinds(all) == "" {
 			c.Count("all-two-sided-demanded", 1)
 			if !d.IsDeepEqual() || one != 0 {
-				c.Violation("deep-equal-inputs-not-all-two-sided:CompareNodes", fmt.Sprintf("the inputs are a tree and its re-ordered copy (DeepEqual both ways) but IsDeepEqual()=%v and %d one-sided entries\n%s", d.IsDeepEqual(), one, d.String()), payload)
+				c.Violation("deep-equal-inputs-not-all-two-sided:CompareNodes", fmt.Sprintf("the inputs are a tree and its re-ordered copy but IsDeepEqual()=%v and %d one-sided entries\n%s", d.IsDeepEqual(), one, d.String()), payload)
 			}
 		}
 	}
